@@ -20,9 +20,25 @@ CHAR_NAME = re.compile(r'^(b?(end_)?col|[a-z0-9_]*_col|c?col\d?|end_col|ccol|col
 def name_unit(name: str):
     if BYTE_NAME.search(name):
         return 'B'
-    if CHAR_NAME.match(name) and 'offset' not in name:
-        return 'C'
+    if CHAR_NAME.match(name) and 'offset' not in name and 'delta' not in name and 'diff' not in name:
+        return 'C'          # (a difference carries the unit of what was subtracted, whatever it is called: left to inference)
     return None
+
+
+def sign_coded_params(fn) -> set:
+    """Parameters the function itself declares to be of either unit: it dispatches on their sign (`col <= 0`) and uses the negated value
+    (`-col`) in one arm — fst_core._offset takes a character column when positive and a byte offset when negative."""
+    if isinstance(fn, ast.Lambda):
+        return set()
+    out = set()
+    ps = {a.arg for a in fn.args.posonlyargs + fn.args.args + fn.args.kwonlyargs}
+    for x in ast.walk(fn):
+        if isinstance(x, ast.Compare) and len(x.ops) == 1 and isinstance(x.ops[0], (ast.Lt, ast.LtE, ast.Gt, ast.GtE)) and \
+                isinstance(x.left, ast.Name) and x.left.id in ps and isinstance(x.comparators[0], ast.Constant) and x.comparators[0].value == 0:
+            if any(isinstance(y, ast.UnaryOp) and isinstance(y.op, ast.USub) and isinstance(y.operand, ast.Name) and y.operand.id == x.left.id
+                   for y in ast.walk(fn)):
+                out.add(x.left.id)
+    return out
 
 
 def is_ascii_literal(e) -> bool:
@@ -40,10 +56,12 @@ class Units:
     def _infer_vars(self):
         """Unit of local names: by naming convention first; otherwise from their assignments when those agree."""
         cands: dict[str, set] = {}
+        dual = sign_coded_params(self.fn)
         for p in self.fi.params():
             u = name_unit(p)
-            if u:
+            if u and p not in dual:
                 self.var[p] = u
+        self.dual = dual
         for _ in range(3):
             for n in walk_no_nested(self.fn):
                 pairs = []
@@ -75,6 +93,8 @@ class Units:
         if isinstance(e, ast.Constant):
             return None
         if isinstance(e, ast.Name):
+            if e.id in getattr(self, 'dual', ()):
+                return None          # the function itself dispatches on the sign of this parameter: characters or (negated) bytes
             if e.id in self.var:
                 return self.var[e.id]
             return name_unit(e.id)
